@@ -2,10 +2,11 @@
 import AtsProofs.C01b
 import AtsProofs.C03
 import AtsProofs.C05
-import AtsProofs.C09
+import AtsProofs.C09b
 import AtsProofs.C11b
-import AtsProofs.C12
+import AtsProofs.C12b
 import AtsProofs.C13
 import AtsProofs.C14
 import AtsProofs.C16b
 import AtsProofs.Claims.C08
+import AtsProofs.Witness
